@@ -496,7 +496,9 @@ class TimeDeltaUnmarshaller(AbstractUnmarshaller[TimeDeltaT], tp.Generic[TimeDel
         if td.__class__ is self.t:
             return td  # type: ignore[return-value]
 
-        return self.t(seconds=td.total_seconds())
+        # `+td` is the plain timedelta with exact integer fields (`total_seconds()` is a lossy float).
+        td = +td
+        return self.t(days=td.days, seconds=td.seconds, microseconds=td.microseconds)
 
 
 UUIDT = tp.TypeVar("UUIDT", bound=uuid.UUID)
